@@ -11,8 +11,18 @@ print(collections.Counter(r['status'] for r in res))
 for r in res:
     if r['status'] not in ('ok', 'stalled'):
         print(r['name'], r['status'], r['info'][-700:])
-json.dump(res, open('/verif/work/t/corpus.json', 'w'))
-v = validate([r for r in res if r['events']], Path('/verif/work/t/tv'))
+for r in list(res):
+    for lr in r.get('loaded', []):
+        res.append(lr)          # continued snapshots / deep copies are traces of their own
+traced = [r for r in res if r['events']]
+v = {'results': [], 'states': 0, 'wall_s': 0.0}
+for i in range(0, len(traced), 150):
+    part = validate(traced[i:i + 150], Path('/verif/work/t/tv'), tag=f'chunk{i // 150}')
+    for r_, t_ in zip(part['results'], traced[i:i + 150]):
+        cont = t_.get('dump_event')
+        if cont is not None:    # the prefix of a continued trace is the live trace itself
+            r_['viol'] = [x for x in r_['viol'] if x[1] > cont]
+    v['results'] += part['results']; v['states'] += part['states']; v['wall_s'] += part['wall_s']
 print('tlc', v['states'], round(v['wall_s'], 1))
 c = collections.Counter(); ex = {}
 for r in v['results']:
